@@ -167,11 +167,23 @@ func (h *HTTPSim) drop(w http.ResponseWriter, kind string) {
 		c.Close()
 		return
 	}
-	// Keep the connection open and silent until the client gives up.
+	if kind == "stall-body" {
+		// Status line, headers and the beginning of the body arrive, then
+		// nothing more.
+		io.WriteString(c, "HTTP/1.1 200 OK\r\nContent-Type: application/xml\r\nContent-Length: 5000\r\n\r\n<response status=\"succ")
+	}
+	// Keep the connection open and silent until the client gives up. Who
+	// gives up first is recorded: the tool's timeout is seconds, the
+	// simulator waits half a minute.
 	go func(c net.Conn) {
 		buf := make([]byte, 1)
 		c.SetReadDeadline(time.Now().Add(30 * time.Second))
-		c.Read(buf)
+		_, err := c.Read(buf)
+		if ne, ok := err.(net.Error); ok && ne.Timeout() {
+			h.event(0, "<"+kind+" ended>", "dead", "stall:peer-never-gave-up", kind)
+		} else {
+			h.event(0, "<"+kind+" ended>", "dead", "stall:peer-closed", kind)
+		}
 		c.Close()
 	}(c)
 }
@@ -208,7 +220,7 @@ func (h *HTTPSim) deliverFault(w http.ResponseWriter, f *Fault, ord int, raw, cl
 		}
 		w.WriteHeader(code)
 		return true
-	case "close", "stall":
+	case "close", "stall", "stall-body":
 		h.event(ord, raw, class, "fault:"+f.Kind, f.Kind)
 		h.mu.Lock()
 		h.dead = f.Kind
